@@ -82,7 +82,8 @@ def shape_like_value(ctx, W, I, state, tag, max_len=2, allow_negative=True):
     if how == "sym":
         static, elems = [], []
         for i in range(n):
-            k = ["int", "N", "M"][ctx.choose(3, f"kind of {tag}[{i}]")]
+            # a Shape sym value may carry unknown entries (the Shape evaluator records the input's dims as they are)
+            k = ["int", "N", "M", "unknown"][ctx.choose(4, f"kind of {tag}[{i}]")]
             # Inv_sym: symbolic (named) entries are >= 0; static integer entries may be any integer
             s, t = W.dim(k, f"{tag}{i}", nonneg=not allow_negative)
             static.append(s)
@@ -243,10 +244,12 @@ def s_gather(ctx):
                     e = elems[pos]
                     picked = z3.If(k == pos, e, picked) if picked is not None else e
                 m = W.mean(d)
+                if m is None:
+                    continue  # an unknown entry claims nothing
                 ctx.check("C09.folding.gather.recorded_element_is_the_indexed_element", z3.Implies(in_range, m == picked), CL09)
     if r is not None:
         okc = isinstance(r, Call) and r.op == "Constant" and sv is not None and idx_ndim == 1
-        ctx.check("C03.folding.gather.constant_only_when_all_gathered_entries_are_ints", okc and
+        ctx.check("C09.folding.gather.constant_only_when_all_gathered_entries_are_ints", okc and
                   all(isinstance(d, (int, SInt)) for d in W.dims_of(sv)), CL09)
 
 
@@ -285,14 +288,26 @@ def s_shape_size(ctx):
                 ctx.check("C09.folding.shape.recorded_entry_is_the_runtime_dim_for_every_binding", m == rt[i], CL09)
     if r is not None:
         ok = isinstance(r, Call) and r.op == "Constant" and sv is not None and all(isinstance(d, (int, SInt)) for d in W.dims_of(sv))
-        ctx.check("C03.folding.shape.constant_only_when_every_entry_is_static", ok, CL09)
+        ctx.check("C09.folding.shape.constant_only_when_every_entry_is_static", ok, CL09)
+        if ok:
+            vi = r.kwargs.get("value_ints")
+            items = I.getattr(vi, "value") if vi is not None else None
+            try:
+                items = list(items) if items is not None else None
+            except TypeError:
+                items = None
+            okv = items is not None and len(items) == len(want) and set(r.kwargs) == {"value_ints"} and not r.args
+            ctx.check("C09.folding.shape.constant_lists_exactly_the_selected_dims", okv, CL09)
+            if okv:
+                for it, i in zip(items, want):
+                    ctx.check("C09.folding.shape.constant_entry_is_the_runtime_dim_for_every_binding", term(it) == rt[i], CL09)
     # Size
     node2 = W.node("Size", [x])
     op2 = OpRecorder()
     r2 = run_eval(I, _cf().size, node2, op2, state)
     if r2 is not None:
         okc = isinstance(r2, Call) and r2.op == "Constant" and static is not None and all(isinstance(d, (int, SInt)) for d in static)
-        ctx.check("C03.folding.size.constant_only_when_every_dim_is_static", okc, CL09)
+        ctx.check("C09.folding.size.constant_only_when_every_dim_is_static", okc, CL09)
         if okc:
             prod = z3.IntVal(1)
             for t in rt:
